@@ -525,8 +525,12 @@ sock_destroy(nni_sock *s)
 	nni_stat_unregister(&s->st_root);
 #endif
 
-	// The protocol needs to clean up its state.
+	// The protocol needs to clean up its state.  An operation whose
+	// caller got in before the socket was marked closed may have been
+	// submitted after sock_shutdown completed what was pending; nobody
+	// can be inside the socket any more, so complete those now.
 	if (s->s_data != NULL) {
+		s->s_sock_ops.sock_close(s->s_data);
 		s->s_sock_ops.sock_fini(s->s_data);
 	}
 
